@@ -170,6 +170,8 @@ def run(ctx):
     crashes = []
     c_out = fcorr.run_c(cbin, [c[0] for c in cases], crashes=crashes)
     for idx, msg in crashes:
+        if msg.startswith("skipped"):
+            continue
         ctx.report("%s/sanitizer" % cases[idx][2][0], "the C aborted on this case: " + msg,
                    {"case": cases[idx][0], "inputs": [repr(x) for x in cases[idx][2][1:]], "stderr": msg})
     crashed = set(i for i, _ in crashes)
